@@ -58,9 +58,22 @@ INTERESTING = RC.interesting_status_words()
 OC_NAMED, OC_ANY, OC_LINK, OC_WRONGOP, OC_BENIGN = range(5)
 
 
+_BUILT = {}
+
+
 def build_request(variant, pseed, cseed=0):
     """Deterministic request content per (variant, content seed); returns
-    (request, device expectation, v1, device cfg)."""
+    (request, device expectation, v1, device cfg) - fresh copies every time."""
+    import copy
+    key = (variant, cseed)
+    if key not in _BUILT:
+        if len(_BUILT) > 2000:
+            _BUILT.clear()
+        _BUILT[key] = _build_request(variant, pseed, cseed)
+    return copy.deepcopy(_BUILT[key])
+
+
+def _build_request(variant, pseed, cseed=0):
     ch = Choices(seed=1000003 * (VARIANTS.index(variant) + 1) + 7 + 7919 * cseed)
     cfg = {"max_inputs": 2, "max_outputs": 2, "max_nodes": 3, "big": False}
     dcfg = {"max_chunk": 60, "no_early": True}
@@ -124,6 +137,17 @@ def classify(apdu):
             0x06: "onboard"}.get(cmd, "cmd.%02x" % cmd)
 
 
+def earlier_for(variant, pseed):
+    """History dimension, a function of the policy seed (no extra draw, so that enumerated prefixes
+    stay aligned): in a quarter of the seeds the same manager has served another, fault-free request
+    of the same protocol mode before the judged one."""
+    if pseed % 4 != 3:
+        return None
+    v1 = variant.startswith("v1.")
+    cands = [v for v in VARIANTS if v.startswith("v1.") == v1 and v != "uiHeartbeat"]
+    return cands[(pseed // 4) % len(cands)]
+
+
 def run_request(variant, pseed, fault=None, cseed=0, keep=False):
     """fault: None or (exchange index relative to the request, kind)."""
     req, exp, v1, dcfg = build_request(variant, pseed, cseed)
@@ -136,6 +160,16 @@ def run_request(variant, pseed, fault=None, cseed=0, keep=False):
         return None
     w = World(pch, device_cfg=dcfg, v1=v1, fault_fn=fault_fn)
     w.bring_up()
+    earlier = earlier_for(variant, pseed)
+    if earlier is not None:
+        req0, exp0, _v1, _d = build_request(earlier, pseed, cseed + 1)
+        if exp0 is not None:
+            if exp0["kind"] == "sign":
+                exp0["der"] = bytes.fromhex("3006020101020102")
+            w.device.expect = exp0
+        w.request(req0)
+        w.device.expect = None
+        del w.device.violations[:]
     base = w.link.index
     if fault is not None:
         target["abs"] = base + fault[0]
@@ -199,10 +233,10 @@ def run_one(ch, cfg):
         viol.append(("reply/missing-success:%s" % variant,
                      "fault-free run answered %r (%r)" % (d["rep"], d["exc"])))
         return _res(viol, None, (variant, "dry"), False, {}, {"variant": variant})
-    kind = d["kinds"][ch.draw(len(d["kinds"]), "step-kind")]
+    kind = d["kinds"][ch.slot(len(d["kinds"]), "step-kind")]
     # enumerated cases address the first exchange of the kind (draw value 0); seeded ones any of them
     occ = [i for i, st_ in enumerate(d["steps"]) if st_ == kind]
-    k = occ[ch.draw(len(occ), "occurrence")]
+    k = occ[ch.slot(len(occ), "occurrence")]
     oc = ch.weighted([(4, OC_NAMED), (3, OC_ANY), (2, OC_LINK), (2, OC_WRONGOP), (1, OC_BENIGN)],
                      "outcome-class")
     sw = None
@@ -295,6 +329,10 @@ def _res(viol, w, state, nontrivial, probes, sample):
 
 def SIM_CFG(tier):
     return {"pseeds": 1 << 16}
+
+
+ENUM_LABELS = ["variant", "policy-seed", "step-kind", "occurrence", "outcome-class",
+               ("sw.any", "link-kind", "wrongop", "sw.benign", "sw.named")]
 
 
 class _Enum:
